@@ -1,5 +1,129 @@
-(* Props/C02.v -- placeholder while the correspondence is brought up; replaced by the real theorems. *)
-From Coq Require Import List.
-From MV Require Import Base.Bytes Model.Http1Seg.
-Theorem C02_placeholder : True. Proof. exact I. Qed.
-Print Assumptions C02_placeholder.
+(* Props/C02.v -- HTTP/1 behaviour does not depend on TCP segmentation or pipelining.
+   Subject: Model/Http1Seg.v (the receive side of Http1Server / Http1Client with the h11 ReceiveBuffer and body readers),
+   the model the correspondence check runs, with the repair fixes/C02-skip-blank-lines-before-head.diff (blank_loop = true).
+   Every theorem holds for ALL message-level functions (head parsing + expected body size, CONNECT test, the
+   mark_done decision, trailer decoding), all connection states, all buffers whose search caches are valid
+   (buf_inv: true initially and preserved), all byte strings.
+   Observations: flat = the emitted commands / ReceiveHttp events with adjacent data events of a stream merged;
+   fin_rel = same connection object and same buffered bytes, or both connections closed by the proxy.
+   The full statement (no side condition on the cut) is false of the code in two places; both are findings:
+     C02_feed_app_refuted_pipe            bytes after a switch to passthrough are lstripped only if already buffered
+     C02_feed_app_refuted_early_response  a client connection whose response ended before its request re-runs the reader
+   cut_ok is exactly the complement of these two situations (ok_stop in Proofs/Http1Seg.v). *)
+From Coq Require Import List Bool NArith ZArith.
+From MV Require Import Base.Bytes Model.Http1Seg Proofs.Http1SegBuf Proofs.Http1Seg.
+Import ListNotations.
+
+(* (1) the two search-offset caches of ReceiveBuffer never change a result *)
+Theorem C02_search_caches_irrelevant :
+  forall Req Resp sh ch ic af tr f (c : conn Req Resp) b1 b2,
+  b_data b1 = b_data b2 -> buf_inv b1 -> buf_inv b2 ->
+  rres_eq Req Resp (run Req Resp sh ch ic af tr true f c b1) (run Req Resp sh ch ic af tr true f c b2).
+Proof. intros. apply run_cong; assumption. Qed.
+Print Assumptions C02_search_caches_irrelevant.
+
+(* (2) handling a segment always terminates within the fuel of the model, and keeps the caches valid *)
+Theorem C02_handle_data_total :
+  forall Req Resp sh ch ic af tr (c : conn Req Resp) b d, buf_inv b ->
+  exists c' b' o, handle_data Req Resp sh ch ic af tr true c b d = Finished c' b' o /\ buf_inv b'.
+Proof. intros. apply handle_data_total; assumption. Qed.
+Print Assumptions C02_handle_data_total.
+
+(* (3) feed_app: a segment a ++ x gives what the segments a, x give *)
+Theorem C02_feed_app_partial :
+  forall Req Resp sh ch ic af tr (c : conn Req Resp) b a x, buf_inv b -> a <> [] -> x <> [] ->
+  exists c1 b1 o1 c2 b2 o2 c3 b3 o3,
+    handle_data Req Resp sh ch ic af tr true c b a = Finished c1 b1 o1 /\
+    handle_data Req Resp sh ch ic af tr true c1 b1 x = Finished c2 b2 o2 /\
+    handle_data Req Resp sh ch ic af tr true c b (a ++ x) = Finished c3 b3 o3 /\
+    (cut_ok Req Resp c c1 x -> fin_rel Req Resp c3 b3 c2 b2 /\ flat Req Resp o3 = flat Req Resp (o1 ++ o2)).
+Proof. intros. apply feed_app_handle_data; assumption. Qed.
+Print Assumptions C02_feed_app_partial.
+
+(* (4) every segmentation of a stream (any number of non-empty segments) gives what the whole stream gives *)
+Theorem C02_any_segmentation_partial :
+  forall Req Resp sh ch ic af tr segs (c : conn Req Resp) b,
+  buf_inv b -> Forall (fun s => s <> []) segs -> segs <> [] ->
+  exists c2 b2 o2 c3 b3 o3,
+    run_segments Req Resp sh ch ic af tr c b segs = Some (c2, b2, o2) /\
+    handle_data Req Resp sh ch ic af tr true c b (concat segs) = Finished c3 b3 o3 /\
+    (cuts_ok Req Resp sh ch ic af tr c b segs -> fin_rel Req Resp c3 b3 c2 b2 /\ flat Req Resp o3 = flat Req Resp o2).
+Proof. intros. apply any_segmentation_handle_data; assumption. Qed.
+Print Assumptions C02_any_segmentation_partial.
+
+(* (5) pipelining: while the current flow is unfinished (state wait) received bytes are only buffered; they are
+   parsed by mark_done when the response has been sent, by the same run function (3) and (4) are about *)
+Theorem C02_wait_defers_parsing :
+  forall Req Resp sh ch ic af tr (c : conn Req Resp) b d, buf_inv b -> c_state c = Wait -> c_closed c = false ->
+  handle_data Req Resp sh ch ic af tr true c b d = Finished c (buf_add b d) [].
+Proof. intros. apply wait_defers_handle_data; assumption. Qed.
+Print Assumptions C02_wait_defers_parsing.
+
+(* ---- witnesses: Req = Resp = N, every head is accepted with Content-Length 0 *)
+Definition w_sh : list bytes -> head_result N := fun _ => Accepted 0%N (Some 0%Z).
+Definition w_ch : N -> list bytes -> head_result N := fun _ _ => Accepted 0%N (Some 0%Z).
+Definition w_client (request_done : bool) : conn N N :=
+  mkConn N N Client ReadHeaders Http10Reader (Some 1%N) (Some 0%N) None request_done false false false.
+Definition HEAD_A : bytes := [x41; x0a; x0a].
+
+Theorem C02_feed_app_refuted_pipe :
+  exists af (c : conn N N) b a x o1 c1 b1 o2 c2 b2 o3 c3 b3, buf_inv b /\ a <> [] /\ x <> [] /\
+    handle_data N N w_sh w_ch (fun _ => false) af (fun _ => TrailerInvalid) true c b a = Finished c1 b1 o1 /\
+    handle_data N N w_sh w_ch (fun _ => false) af (fun _ => TrailerInvalid) true c1 b1 x = Finished c2 b2 o2 /\
+    handle_data N N w_sh w_ch (fun _ => false) af (fun _ => TrailerInvalid) true c b (a ++ x) = Finished c3 b3 o3 /\
+    flat N N o3 <> flat N N (o1 ++ o2).
+Proof.
+  exists (fun _ _ _ => MakePipe), (w_client true), empty_buf, HEAD_A, [x0a; x42].
+  do 9 eexists. split; [apply buf_inv_zero|]. split; [discriminate|]. split; [discriminate|].
+  split; [vm_compute; reflexivity|]. split; [vm_compute; reflexivity|]. split; [vm_compute; reflexivity|].
+  vm_compute. discriminate.
+Qed.
+Print Assumptions C02_feed_app_refuted_pipe.
+
+Theorem C02_feed_app_refuted_early_response :
+  exists af (c : conn N N) b a x o1 c1 b1 o2 c2 b2 o3 c3 b3, buf_inv b /\ a <> [] /\ x <> [] /\
+    handle_data N N w_sh w_ch (fun _ => false) af (fun _ => TrailerInvalid) true c b a = Finished c1 b1 o1 /\
+    handle_data N N w_sh w_ch (fun _ => false) af (fun _ => TrailerInvalid) true c1 b1 x = Finished c2 b2 o2 /\
+    handle_data N N w_sh w_ch (fun _ => false) af (fun _ => TrailerInvalid) true c b (a ++ x) = Finished c3 b3 o3 /\
+    flat N N o3 <> flat N N (o1 ++ o2).
+Proof.
+  exists (fun _ _ _ => NextMessage), (w_client false), empty_buf, HEAD_A, [x42].
+  do 9 eexists. split; [apply buf_inv_zero|]. split; [discriminate|]. split; [discriminate|].
+  split; [vm_compute; reflexivity|]. split; [vm_compute; reflexivity|]. split; [vm_compute; reflexivity|].
+  vm_compute. discriminate.
+Qed.
+Print Assumptions C02_feed_app_refuted_early_response.
+
+(* the unrepaired code (blank_loop = false): a blank line before a complete request stalls it when both arrive
+   in one segment -- the defect repaired by fixes/C02-skip-blank-lines-before-head.diff *)
+Theorem C02_unrepaired_blank_line_stall :
+  exists (c : conn N N) b a x o1 c1 b1 o2 c2 b2 o3 c3 b3, buf_inv b /\ a <> [] /\ x <> [] /\
+    handle_data N N w_sh w_ch (fun _ => false) (fun _ _ _ => NextMessage) (fun _ => TrailerInvalid) false c b a = Finished c1 b1 o1 /\
+    handle_data N N w_sh w_ch (fun _ => false) (fun _ _ _ => NextMessage) (fun _ => TrailerInvalid) false c1 b1 x = Finished c2 b2 o2 /\
+    handle_data N N w_sh w_ch (fun _ => false) (fun _ _ _ => NextMessage) (fun _ => TrailerInvalid) false c b (a ++ x) = Finished c3 b3 o3 /\
+    o3 = [] /\ o1 ++ o2 <> [].
+Proof.
+  exists (init_conn N N Server), empty_buf, [x0d; x0a], HEAD_A.
+  do 9 eexists. split; [apply buf_inv_zero|]. split; [discriminate|]. split; [discriminate|].
+  split; [vm_compute; reflexivity|]. split; [vm_compute; reflexivity|]. split; [vm_compute; reflexivity|].
+  split; [reflexivity|discriminate].
+Qed.
+Print Assumptions C02_unrepaired_blank_line_stall.
+
+(* the hypotheses of (4) are satisfiable on a non-trivial input: two pipelined requests, the first preceded by a blank
+   line, cut inside the blank line, inside the first head and between the requests; the second waits for the response *)
+Theorem C02_nonvacuous :
+  let segs := [[x0d]; [x0a; x41]; [x0a; x0a]; HEAD_A] in
+  buf_inv empty_buf /\ Forall (fun s : bytes => s <> []) segs /\ segs <> [] /\
+  cuts_ok N N w_sh w_ch (fun _ => false) (fun _ _ _ => NextMessage) (fun _ => TrailerInvalid) (init_conn N N Server) empty_buf segs /\
+  exists c2 b2, run_segments N N w_sh w_ch (fun _ => false) (fun _ _ _ => NextMessage) (fun _ => TrailerInvalid)
+                  (init_conn N N Server) empty_buf segs = Some (c2, b2, [OReqHeaders 1%N 0%N true; OEndOfMessage 1%N]) /\
+                c_state c2 = Wait /\ b_data b2 = HEAD_A.
+Proof.
+  cbv zeta. split; [apply buf_inv_zero|]. split; [repeat constructor; discriminate|]. split; [discriminate|].
+  split.
+  - vm_compute. repeat split; intros; try discriminate;
+      match goal with H : _ /\ _ |- _ => destruct H as (? & ? & ? & ?); discriminate | _ => idtac end.
+  - eexists _, _. split; [vm_compute; reflexivity|]. split; reflexivity.
+Qed.
+Print Assumptions C02_nonvacuous.
